@@ -46,7 +46,7 @@ void chk_run_case(uint64_t seed, long c, bool is_sweep)
         eng_default_profile();
         if (is_sweep) { sweep_case(c); return; }
         snprintf(mode, sizeof mode, "random history");
-        EP.p_event_step = 30 + rn(100); EP.p_backpressure = 90; EP.p_hold = 15; EP.p_list = 10;
+        EP.p_event_step = 30 + rn(100); EP.p_backpressure = 90; EP.p_hold = 15; EP.p_list = 10; EP.p_toggle = 15;
         eng_gen_table();
         eng_gen_input(1 + rn(8));
         eng_random_schedules();
